@@ -25,6 +25,11 @@ use std::time::{Duration, Instant};
 #[derive(Clone, Copy, Debug, PartialEq, Eq)]
 pub enum Fault { None, EofAfterReads(usize), ReadError(usize), WriteError(usize) }
 
+/// Wall-clock patience for "this should have happened by now" on the real drivers. Every such wait
+/// ends as soon as the awaited fact is observed, so the bound only costs time when something is wrong;
+/// it is long so that a starved thread on a loaded machine is not mistaken for a stuck one.
+const PATIENCE_S: u64 = 20;
+
 pub struct PipeState {
     rng: Rng,
     v5: bool,
@@ -377,7 +382,7 @@ fn threaded_scenario(idx: u64, r: &mut Rng, l: &mut Local) {
     if !loop_gone { l.count("c13.watchdog_loop_still_running"); return; }
     l.count("c13.close_races_judged");
     // The operation receiver has been dropped.  The loop thread may still be discarding the messages
-    // that were queued in the channel (that is what resolves them); give it a generous second.  After
+    // that were queued in the channel (that is what resolves them); give it a generous 20 s (the wait ends as soon as everything is resolved).  After
     // that nothing that could fill a result slot exists any more.
     let mut pending: Vec<(u64, Box<dyn Fn() -> bool>)> = Vec::new();
     for (tag, _k, prx, srx) in receivers.into_iter() {
@@ -390,7 +395,7 @@ fn threaded_scenario(idx: u64, r: &mut Rng, l: &mut Local) {
     }
     for (tag, rx) in racer_rx.into_iter() { l.count("c13.results_checked"); pending.push((tag, Box::new(move || rx.try_recv().is_some()))); }
     for rx in probes.into_iter() { l.count("c13.results_checked"); pending.push((9999, Box::new(move || rx.try_recv().is_some()))); }
-    let grace = Instant::now() + Duration::from_secs(1);
+    let grace = Instant::now() + Duration::from_secs(PATIENCE_S);
     loop {
         pending.retain(|(_, done)| !done());
         if pending.is_empty() || Instant::now() > grace { break; }
@@ -476,7 +481,7 @@ fn tokio_scenario(idx: u64, r: &mut Rng, l: &mut Local) {
         // nothing that could still complete it exists any more.
         let mut pending: Vec<(u64, AsyncPublishResult)> = futs.into_iter().chain(racer_futs.into_iter()).collect();
         let checked = pending.len();
-        let grace = Instant::now() + Duration::from_secs(2);
+        let grace = Instant::now() + Duration::from_secs(PATIENCE_S);
         loop {
             pending.retain_mut(|(_, f)| !ready_now(f));
             if pending.is_empty() || Instant::now() > grace { break; }
@@ -504,7 +509,7 @@ fn tokio_scenario(idx: u64, r: &mut Rng, l: &mut Local) {
             l.count("c13.close_races_judged");
             l.add("c13.results_checked", checked);
             if !unresolved.is_empty() {
-                l.violation("C13.R5-operation-never-resolves", &[("driver", "tokio".into()), ("submitted", if unresolved.iter().all(|t| *t >= 1000) { "during-or-after-close".into() } else { "before-close".to_string() }), ("resolves_once_last_handle_is_dropped", freed.to_string())], format!("the event loop has exited but {} operation futures do not resolve within 2 s while a client handle is alive: tags {:?}; resolved after dropping the last handle: {}", unresolved.len(), &unresolved[..usize::min(8, unresolved.len())], freed), replay.clone());
+                l.violation("C13.R5-operation-never-resolves", &[("driver", "tokio".into()), ("submitted", if unresolved.iter().all(|t| *t >= 1000) { "during-or-after-close".into() } else { "before-close".to_string() }), ("resolves_once_last_handle_is_dropped", freed.to_string())], format!("the event loop has exited but {} operation futures do not resolve within 20 s while a client handle is alive: tags {:?}; resolved after dropping the last handle: {}", unresolved.len(), &unresolved[..usize::min(8, unresolved.len())], freed), replay.clone());
             }
             let moved = check_streams(&hub, &expected, l, "tokio", &replay);
             let rec = received.lock().unwrap().clone();
@@ -532,7 +537,7 @@ fn large_publish_scenario(idx: u64, r: &mut Rng, l: &mut Local) {
     let extra = r.bytes(size);
     let payload = tagged_payload(7, &extra);
     let rx = client.publish(build_publish(&PublishSpec { topic: "big/one".into(), qos: 1, payload: Some(payload.clone()), ..Default::default() }), None);
-    let deadline = Instant::now() + Duration::from_secs(4);
+    let deadline = Instant::now() + Duration::from_secs(PATIENCE_S);
     let mut done = false;
     while Instant::now() < deadline {
         if rx.try_recv().is_some() { done = true; break; }
@@ -544,7 +549,7 @@ fn large_publish_scenario(idx: u64, r: &mut Rng, l: &mut Local) {
     if !done {
         // wall-clock based: corroboration only (the logical verdict is C08.R1 / R2 in the engine simulation)
         l.count("c13.large_publish_stalled_corroboration");
-        l.violation("C13.R7-large-publish-stalls", &[("driver", "threaded".into())], format!("a {}-byte QoS1 publish on an idle connection was not completed within 4 s; {} bytes reached the transport (index {})", size, moved, idx), json!({"kind": "real-driver", "driver": "threaded", "index": idx, "size": size}));
+        l.violation("C13.R7-large-publish-stalls", &[("driver", "threaded".into())], format!("a {}-byte QoS1 publish on an idle connection was not completed within 20 s; {} bytes reached the transport (index {})", size, moved, idx), json!({"kind": "real-driver", "driver": "threaded", "index": idx, "size": size}));
     }
 }
 
@@ -805,7 +810,7 @@ fn lifecycle_scenario(idx: u64, r: &mut Rng, l: &mut Local) {
     let mut stop_observed = true;
     if last_is_stop {
         // corroboration with a generous wall-clock bound; the logical verdict is the simulator's
-        let deadline = Instant::now() + Duration::from_secs(4);
+        let deadline = Instant::now() + Duration::from_secs(PATIENCE_S);
         stop_observed = false;
         while Instant::now() < deadline {
             if events.lock().unwrap().last() == Some(&"Stopped") { stop_observed = true; break; }
@@ -836,7 +841,7 @@ fn lifecycle_scenario(idx: u64, r: &mut Rng, l: &mut Local) {
     }
     let _ = stopped_seen;
     if last_is_stop && !stop_observed {
-        l.violation("C12.D2-real-driver-stop-did-not-stop", &[("driver", "threaded".into()), ("last_request", script.last().copied().unwrap_or("").to_string())], format!("no Stopped event within 4 s after the final stop request (script {:?}, events {:?})", script, &evs[..usize::min(evs.len(), 30)]), replay.clone());
+        l.violation("C12.D2-real-driver-stop-did-not-stop", &[("driver", "threaded".into()), ("last_request", script.last().copied().unwrap_or("").to_string())], format!("no Stopped event within 20 s after the final stop request (script {:?}, events {:?})", script, &evs[..usize::min(evs.len(), 30)]), replay.clone());
     }
     l.nontrivial(crate::rng::fnv(format!("{:?}|{:?}", script, evs).as_bytes()));
     if l.samples.len() < 2 { l.sample(json!({"driver": "threaded", "script": script, "events": evs})); }
@@ -886,7 +891,7 @@ fn tokio_lifecycle_scenario(idx: u64, r: &mut Rng, l: &mut Local) {
         }
         let mut stop_observed = true;
         if last_is_stop {
-            let deadline = Instant::now() + Duration::from_secs(4);
+            let deadline = Instant::now() + Duration::from_secs(PATIENCE_S);
             stop_observed = false;
             while Instant::now() < deadline {
                 if ev3.lock().unwrap().last() == Some(&"Stopped") { stop_observed = true; break; }
@@ -918,7 +923,7 @@ fn tokio_lifecycle_scenario(idx: u64, r: &mut Rng, l: &mut Local) {
         }
     }
     if last_is_stop && !stop_observed {
-        l.violation("C12.D2-real-driver-stop-did-not-stop", &[("driver", "tokio".into()), ("last_request", script.last().copied().unwrap_or("").to_string())], format!("no Stopped event within 4 s after the final stop request (script {:?}, events {:?})", script, &evs[..usize::min(evs.len(), 30)]), replay.clone());
+        l.violation("C12.D2-real-driver-stop-did-not-stop", &[("driver", "tokio".into()), ("last_request", script.last().copied().unwrap_or("").to_string())], format!("no Stopped event within 20 s after the final stop request (script {:?}, events {:?})", script, &evs[..usize::min(evs.len(), 30)]), replay.clone());
     }
     l.nontrivial(crate::rng::fnv(format!("tokio|{:?}|{:?}", script, evs).as_bytes()));
     if l.samples.len() < 2 { l.sample(json!({"driver": "tokio", "script": script, "events": evs})); }
@@ -929,7 +934,7 @@ pub fn c12_real_driver_report(tier: &str, seed: u64) -> crate::report::Report {
     let plan = FuzzPlan {
         id: "C12", level: "exploration", cases: if quick { 1_200 } else { 30_000 },
         rule: "corroboration on the real threaded and tokio clients (public API, the tokio one on a current-thread runtime where listener tasks run in spawn order; scripted transport with refused connections and read/write faults): random start / stop / stop-with-DISCONNECT / publish requests with sub-millisecond pauses; the lifecycle events seen by a listener must follow the regular language, and a final stop must be followed by Stopped within a generous wall-clock bound".into(),
-        assumptions: vec!["the wall-clock bound (4 s) is corroboration only; the logical stop rule is the simulator's".into()],
+        assumptions: vec!["the wall-clock bound (20 s) is corroboration only; the logical stop rule is the simulator's".into()],
         gates: vec![("c12.real_threaded_histories", if quick { 400 } else { 10_000 }), ("c12.real_tokio_histories", if quick { 400 } else { 10_000 })],
         budget_s: if quick { 600 } else { 3000 },
     };
